@@ -45,7 +45,7 @@ pub fn parse_timezone<'t>(config: &SmartCalcConfig, capture: &regex::Captures<'t
                     None => 1
                 };
 
-                Some((tz.as_str().to_string(), (hour * 60 + minute) * timezone_type))
+                Some((tz.as_str().to_uppercase(), (hour * 60 + minute) * timezone_type))
             },
             None => None
         }
